@@ -5,7 +5,7 @@
    introspection record, every record of string primitives, all constructors and library records, and all raw namespaces. *)
 From Coq Require Import ZArith List Bool Lia.
 From Batchie Require Import Lib.Sexp Lib.PyRt Model.Cli Generated.SrcCli Generated.SrcCliArgs Proofs.PyRtLemmas
-  Proofs.C06SourceCli Proofs.C03SourceCli Proofs.C18SourceArgs.
+  Proofs.C06SourceCli Proofs.C03SourceCli Proofs.C18SourceArgs Proofs.C18SourceIntrospect.
 Import ListNotations.
 Open Scope Z_scope.
 
@@ -49,3 +49,34 @@ Proof.
        pr_plate_id pr_plate_size pr_choice pr_reveal pr_mk_smoother pr_smooth pr_n_plates pr_size pr_holdout].
   reflexivity.
 Qed.
+
+Theorem src_cli_prepare_cmd_world :
+  forall (Mod Obj F O : Type) (W : pyworld Mod Obj) (P : pyprims F O) (Scr Pl Ig Pg Ps : Type)
+         (construct_ig : Obj -> list (str * pval F O) -> result Ig) (construct_pg : Obj -> list (str * pval F O) -> result Pg)
+         (construct_ps : Obj -> list (str * pval F O) -> result Ps) (L : pr_lib Scr Pl Ig Pg Ps) (mix : Z -> Z)
+         (raw : pr_ns Obj F O),
+  src_cli_prepare_cmd Obj F O (introspect_src W) P Scr Pl Ig Pg Ps construct_ig construct_pg construct_ps L mix raw
+  = cli_prepare_cmd (introspect_of W) P construct_ig construct_pg construct_ps L mix raw.
+Proof.
+  intros. rewrite src_cli_prepare_cmd_is_model.
+  unfold cli_prepare_cmd, pr_get_args, pr_resolve_opt.
+  destruct (pr_plate_generator (pr_plain raw)), (pr_initial_plate_generator (pr_plain raw)), (pr_plate_smoother (pr_plain raw));
+    now rewrite ?resolve_src.
+Qed.
+
+(* the translated get_args() leaves every plain argument as parse_args produced it: in particular --holdout-fraction reaches
+   the hold-out split unchanged (it is not rescaled, clipped or re-read as a percentage) *)
+Theorem src_pr_get_args_plain : forall (Cls F O : Type) (I : introspect Cls) (P : pyprims F O) (raw a : pr_ns Cls F O),
+  src_pr_get_args Cls F O I P raw = Ok a -> pr_plain a = pr_plain raw.
+Proof.
+  intros Cls F O I P raw a. rewrite src_pr_get_args_is_model. unfold pr_get_args.
+  destruct (pr_resolve_opt I P BPlateGenerator _ _); cbn [res_bind]; [|discriminate].
+  destruct (pr_resolve_opt I P BInitialPlateGenerator _ _); cbn [res_bind]; [|discriminate].
+  destruct (pr_resolve_opt I P BPlateSmoother _ _); cbn [res_bind]; [|discriminate].
+  intros H. injection H as <-. reflexivity.
+Qed.
+
+Theorem src_pr_get_args_holdout : forall (Cls F O : Type) (I : introspect Cls) (P : pyprims F O) (raw a : pr_ns Cls F O),
+  src_pr_get_args Cls F O I P raw = Ok a ->
+  pr_holdout_fraction (pr_plain a) = pr_holdout_fraction (pr_plain raw).
+Proof. intros Cls F O I P raw a H. now rewrite (src_pr_get_args_plain Cls F O I P raw a H). Qed.
